@@ -152,6 +152,14 @@ else:
     for key in keys:
         if g2.get(key, 0) != exp0[key]:
             bad.append(("permutation", key, g2.get(key, 0), exp0[key]))
+    gk = rsys.rates(dict(conc), substance_keys=list(keys))
+    for key in keys:
+        if gk.get(key, "missing") != exp0[key]:
+            bad.append(("ReactionSystem.rates(substance_keys=...)", key, gk.get(key, "missing"), exp0[key]))
+    arr2 = dCdt_list(rsys, list(law_of_mass_action_rates([conc[key] for key in keys], rsys, {key: conc[key] + 1 for key in keys})))
+    for key, v in zip(keys, arr2):
+        if v != exp0[key]:
+            bad.append(("dCdt_list with a variables mapping holding other numbers under the substance keys", key, v, exp0[key]))
     import numpy as np
     varr = {kk: np.array([vv], dtype=object) for kk, vv in conc.items()}
     ga = rsys.rates(dict(varr))
@@ -313,6 +321,12 @@ def ob_system(patterns, keys, lo, hi, cstr_keys, twin=False):
             variables["fc_" + key] = v
         gotc = rsys.rates(variables, cstr_fr_fc=("F", {key: "fc_" + key for key in feeds})) if feeds else None
         arr = dCdt_list(rsys, list(law_of_mass_action_rates([conc[key] for key in keys], rsys, {})))
+        # optional arguments: an explicit key list for the system's rates (same numbers, those keys), and a `variables` mapping for the
+        # array form that happens to hold OTHER numbers under the substance keys (the concentrations given positionally are the state)
+        gotk = rsys.rates(dict(conc), substance_keys=list(keys))
+        stale = {key: conc[key] + 1 for key in keys}
+        arr2 = dCdt_list(rsys, list(law_of_mass_action_rates([conc[key] for key in keys], rsys, stale)))
+        opt_state = (gotk, arr2)
         rs2 = ReactionSystem(rxns[::-1], list(keys), checks=())
         gotp = rs2.rates(dict(conc))
         # array-valued concentrations (a batch of states): the per-reaction contributions are accumulated per substance; mutable
@@ -331,12 +345,12 @@ def ob_system(patterns, keys, lo, hi, cstr_keys, twin=False):
         kk = ks if not twin else ([ks[0]] + [2 * x for x in ks[1:]] if len(ks) > 1 else [ks[0] + 1])
         exp = oracle_rates(rxs, kk, conc, keys)
         expc = oracle_rates(rxs, kk, conc, keys, (F, feeds)) if feeds else None
-        return got, gotc, arr, gotp, mats, exp, expc, arr_state
+        return got, gotc, arr, gotp, mats, exp, expc, arr_state, opt_state
 
     def goal(p):
         if p.kind == "exc":
             return False
-        got, gotc, arr, gotp, mats, exp, expc, (gota, varr) = p.value
+        got, gotc, arr, gotp, mats, exp, expc, (gota, varr), (gotk, arr2) = p.value
         pairs = []
         present = set()
         for rx in rxs:
@@ -349,6 +363,11 @@ def ob_system(patterns, keys, lo, hi, cstr_keys, twin=False):
             pairs.append((gotp.get(key, 0), exp[key]))
         for key, v in zip(keys, arr):
             pairs.append((v, exp[key]))
+        if set(gotk) != set(keys):
+            return False
+        for key, v in zip(keys, arr2):
+            pairs.append((v, exp[key]))
+            pairs.append((gotk[key], exp[key]))
         for key in keys:
             v = gota.get(key, 0)
             pairs.append((v[0] if hasattr(v, "__len__") else v, exp[key]))
